@@ -132,6 +132,8 @@ type Enc struct {
 	retCount map[string]int
 	wfSeen   map[string]bool
 	refComp  map[string]bool
+	assertHit map[string]int
+	lookupIdx int // >= 0: lookupLocal also scans the first lookupIdx instructions of the block itself
 	cells    []ssa.Value // own variable cells (escaping allocs / captured variables) reachable by callees only as arguments
 	sliceComp map[string]bool
 	inferredUsed map[string]bool
@@ -187,6 +189,8 @@ func (e *Enc) reset() {
 	e.retOrder = nil
 	e.retGuards = nil
 	e.retCount = map[string]int{}
+	e.lookupIdx = -1
+	e.assertHit = map[string]int{}
 	e.inferredUsed = map[string]bool{}
 	e.wfSeen = nil
 }
@@ -430,6 +434,12 @@ func (e *Enc) arrKeyT(el types.Type) string {
 
 // closure asserts that every reference stored in heap component `term` is allocated w.r.t. allocTerm.
 func (e *Enc) closure(key, term, allocTerm string) {
+	if strings.HasPrefix(key, "Map|") {
+		f := strings.Split(strings.TrimSuffix(key, "#ref"), "|")
+		opt := e.w.so.optSort(f[2])
+		e.assert(fmt.Sprintf("(forall ((m Int) (k %s)) (! (=> (and (<= m %s) ((_ is Some_%s) (select (select %s m) k))) (<= (get_%s (select (select %s m) k)) %s)) :pattern ((select (select %s m) k))))", f[1], allocTerm, opt, term, opt, term, allocTerm, term))
+		return
+	}
 	if strings.HasPrefix(key, "Arr|") {
 		e.assert(fmt.Sprintf("(forall ((b Int) (i Int)) (! (=> (<= b %s) (<= (select (select %s b) i) %s)) :pattern ((select (select %s b) i))))", allocTerm, term, allocTerm, term))
 		return
@@ -443,6 +453,12 @@ func (e *Enc) closure(key, term, allocTerm string) {
 
 // closureElem: same for one fresh element of the component (a field value or one backing array).
 func (e *Enc) closureElem(key, elem, allocTerm string) {
+	if strings.HasPrefix(key, "Map|") {
+		f := strings.Split(strings.TrimSuffix(key, "#ref"), "|")
+		opt := e.w.so.optSort(f[2])
+		e.assert(fmt.Sprintf("(forall ((k %s)) (! (=> ((_ is Some_%s) (select %s k)) (<= (get_%s (select %s k)) %s)) :pattern ((select %s k))))", f[1], opt, elem, opt, elem, allocTerm, elem))
+		return
+	}
 	if strings.HasPrefix(key, "Arr|") {
 		e.assert(fmt.Sprintf("(forall ((i Int)) (! (<= (select %s i) %s) :pattern ((select %s i))))", elem, allocTerm, elem))
 		return
@@ -461,7 +477,14 @@ func (e *Enc) mapKey(ks, vs string) string {
 	return e.regComp("Map|"+ks+"|"+vs, "(Array Int (Array "+ks+" "+e.w.so.optSort(vs)+"))")
 }
 func (e *Enc) mapKeyT(m *types.Map) string {
-	return e.mapKey(e.sortOf(m.Key()), e.sortOf(m.Elem()))
+	ks, vs := e.sortOf(m.Key()), e.sortOf(m.Elem())
+	if isRefType(m.Elem()) {
+		// maps holding references get their own heap so that the allocation-closure axiom can be stated
+		k := e.regComp("Map|"+ks+"|"+vs+"#ref", "(Array Int (Array "+ks+" "+e.w.so.optSort(vs)+"))")
+		e.refComp[k] = true
+		return k
+	}
+	return e.mapKey(ks, vs)
 }
 
 func (e *Enc) allocRef(hint string) string {
